@@ -57,6 +57,10 @@ def jobs(tier):
     out.append(("edit-edit", "job_ee", {}))
     out.append(("create-magnet-edit-magnet", "job_magnet", {}))
     out.append(("rebuild-rebuild", "job_rebuild", {}))
+    for version in (1, 2, 3):
+        out.append(("rebuild-rewrite-rebuild.v%d" % version, "job_rebuild_rewrite", dict(version=version)))
+    for mv in ("1", "3"):
+        out.append(("cli.create-with-config-then-create.v%s" % mv, "job_cli_config", dict(mv=mv)))
     if not q:
         out.append(("create3.1", "job_ccc", dict(which="1")))
         out.append(("create3.3a", "job_ccc", dict(which="3a")))
@@ -320,7 +324,164 @@ def job_rebuild(E, _mutants=None):
             "%r vs %r" % (d2, d3))
 
 
+def job_rebuild_rewrite(E, version, _mutants=None):
+    """rebuild; a source file is rewritten in place (same size, other bytes); rebuild again into another destination."""
+    P = 16384
+    fs = AFS(order="reversed")
+    sizes = {r: E.int("s%d" % i, 1, 2 * P) for i, r in enumerate(cr.SHAPES["flat2"])}
+    E.note("shape", "flat2")
+    for i, r in enumerate(cr.SHAPES["flat2"]):
+        fs.add("/src/" + r.split("/", 1)[1], ("f", i), sizes[r])
+    meta = rk.ref_meta(E, version, "flat2", sizes, P)
+    fs.add_token("/t/m.torrent", BenTok(meta))
+    fs.mkdirs("/dest1")
+    fs.mkdirs("/dest2")
+    w = World(fs, mutants=_mutants)
+    try:
+        w.mod("rebuild").Assembler(["/t/m.torrent"], ["/src"], "/dest1").assemble_torrents()
+        fs.add("/src/a", ("f", "a-rewritten"), sizes["name/a"])
+        n2 = w.mod("rebuild").Assembler(["/t/m.torrent"], ["/src"], "/dest2").assemble_torrents()
+        fsf = fs.clone()
+        for p in [p for p in fsf.files if p.startswith("/dest2/")]:
+            del fsf.files[p]
+        fsf.dirs = {d for d in fsf.dirs if not d.startswith("/dest2/")}
+        n3 = World(fsf, mutants=_mutants).mod("rebuild").Assembler(["/t/m.torrent"], ["/src"], "/dest2").assemble_torrents()
+    except Unsupported:
+        raise
+    except Exception as ex:  # noqa: BLE001
+        E.fail("C09.rebuild.no-exception", "%s: %s" % (type(ex).__name__, ex))
+        return
+    E.check(n2 == n3, "C09.rebuild-after-rewrite.count", "second rebuild counts %r, a fresh process %r" % (n2, n3))
+    d2 = sorted(p for p in fs.files if p.startswith("/dest2/"))
+    d3 = sorted(p for p in fsf.files if p.startswith("/dest2/"))
+    E.check(d2 == d3 and all(fs.files[p].content == fsf.files[p].content for p in d2), "C09.rebuild-after-rewrite.tree", "%r vs %r" % (d2, d3))
+
+
+def job_cli_config(E, mv, _mutants=None):
+    """Two creates through the command line entry point in one process: the first takes trackers and seeds from a
+    configuration file, the second gives none."""
+    P = 16384
+    fs, sizes = base_fs(E, P)
+    fs.add_token("/cfg/t.ini", ("INI", {"config": {"announce": "\nhttp://cfg/one\nhttp://cfg/two", "web-seed": "\nhttp://cfg/ws",
+                                                   "comment": "from config", "private": "true"}}))
+    w = World(fs, mutants=_mutants)
+    argv2 = ["create", "--prog", "0", "--meta-version", mv, "--piece-length", "14", "-o", "/out/two.torrent", "/data/name"]
+    try:
+        cli = w.mod("cli")
+        cli.execute(["create", "--prog", "0", "--meta-version", mv, "--piece-length", "14", "--config", "--config-path", "/cfg/t.ini",
+                     "-o", "/out/one.torrent", "/data/name"])
+        got = strip(cli.execute(list(argv2)).meta)
+        fsf = fs.clone()
+        fsf.files.pop("/out/two.torrent", None)
+        fresh = strip(World(fsf, mutants=_mutants).mod("cli").execute(list(argv2)).meta)
+    except Unsupported:
+        raise
+    except SystemExit as ex:
+        E.fail("C09.cli.parser-accepts", str(ex))
+        return
+    except Exception as ex:  # noqa: BLE001
+        E.fail("C09.cli.no-exception", "%s: %s" % (type(ex).__name__, ex))
+        return
+    E.check(same(got, fresh), "C09.cli-create-after-config-create",
+            "second create gives top-level keys %r, a fresh process %r" % (sorted(got), sorted(fresh)))
+
+
 # ------------------------------------------------------------------ concrete replay
+
+def _fresh(code, workdir, *args):
+    import subprocess
+    import sys
+    import json
+    repo = os.environ.get("VERIF_REAL_REPO") or os.environ.get("VERIF_REPO", "/repo")
+    r = subprocess.run([sys.executable, "-c", "import sys; sys.path.insert(0, %r)\n" % repo + code] + list(args), capture_output=True, text=True, cwd=workdir)
+    try:
+        return json.loads(r.stdout)
+    except Exception:
+        return "SUBPROCESS-FAILED " + r.stderr[-300:]
+
+
+def _replay_rebuild_rewrite(params, model, workdir, seed):
+    import io
+    import contextlib
+    import json
+    version, P = params["version"], 16384
+    sa, sb = int(model["s0"]), int(model["s1"])
+    da, db = refconc.content(("f", 0), sa, seed), refconc.content(("f", 1), sb, seed)
+    refconc.write_file(workdir + "/src/a", da)
+    refconc.write_file(workdir + "/src/b", db)
+    meta = refconc.build_meta([(["a"], da), (["b"], db)], P, version)
+    refconc.write_file(workdir + "/t/m.torrent", refconc.bencode(meta))
+    mods = cr.real_torrentfile()
+    RB = mods["torrentfile.rebuild"]
+    with contextlib.redirect_stdout(io.StringIO()):
+        RB.Assembler([workdir + "/t/m.torrent"], [workdir + "/src"], workdir + "/dest1").assemble_torrents()
+        refconc.write_file(workdir + "/src/a", refconc.content(("f", "a-rewritten"), sa, seed))
+        n2 = RB.Assembler([workdir + "/t/m.torrent"], [workdir + "/src"], workdir + "/dest2").assemble_torrents()
+    tree2 = {k: v for k, v in refconc.snapshot(workdir + "/dest2").items()} if os.path.isdir(workdir + "/dest2") else {}
+    code = ("import json, io, contextlib, os\nimport torrentfile.rebuild as RB\nw = sys.argv[1]\n"
+            "with contextlib.redirect_stdout(io.StringIO()):\n"
+            "    n = RB.Assembler([w + '/t/m.torrent'], [w + '/src'], w + '/dest3').assemble_torrents()\n"
+            "out = []\n"
+            "for d, ds, fs in os.walk(w + '/dest3'):\n"
+            "    for f in fs: out.append([os.path.relpath(os.path.join(d, f), w + '/dest3'), open(os.path.join(d, f), 'rb').read().hex()])\n"
+            "sys.stdout.write(json.dumps([n, sorted(out)]))\n")
+    fr = _fresh(code, workdir, workdir)
+    mine = [n2, sorted([k, v[1].hex()] for k, v in tree2.items() if v[0] == "f")]
+    return [] if fr == json.loads(json.dumps(mine)) else ["C09.rebuild-after-rewrite (%r vs %r)" % (mine[0], fr[0] if isinstance(fr, list) else fr)]
+
+
+def _replay_cli_config(params, model, workdir, seed):
+    import io
+    import contextlib
+    import json
+    import sys
+    mv = params["mv"]
+    root = os.path.join(workdir, "data", "name")
+    refconc.write_file(os.path.join(root, "a"), refconc.content(("f", 0), int(model.get("s0", 0)), seed))
+    refconc.write_file(os.path.join(root, "sub", "b"), refconc.content(("f", 1), int(model.get("s1", 0)), seed))
+    os.makedirs(workdir + "/out")
+    ini = workdir + "/t.ini"
+    with open(ini, "w") as f:
+        f.write("[config]\nannounce =\n    http://cfg/one\n    http://cfg/two\nweb-seed =\n    http://cfg/ws\ncomment = from config\nprivate = true\n")
+    cr.real_torrentfile()
+    import torrentfile.cli  # noqa: F401
+    cli = sys.modules["torrentfile.cli"]
+    argv2 = ["create", "--prog", "0", "--meta-version", mv, "--piece-length", "14", "-o", workdir + "/out/two.torrent", root]
+
+    def n(m):
+        m = {k: v for k, v in m.items() if k != "creation date"}
+        return json.loads(json.dumps(_jsonable(m)))
+    try:
+        with contextlib.redirect_stdout(io.StringIO()), contextlib.redirect_stderr(io.StringIO()):
+            cli.execute(["create", "--prog", "0", "--meta-version", mv, "--piece-length", "14", "--config", "--config-path", ini,
+                         "-o", workdir + "/out/one.torrent", root])
+            got = n(cli.execute(list(argv2)).meta)
+    except BaseException as ex:  # noqa: BLE001
+        return ["C09.cli.no-exception: %r" % (ex,)]
+    code = ("import json, io, contextlib\nimport torrentfile.cli as cli\n"
+            "def j(x):\n"
+            "    if isinstance(x, dict): return sorted((repr(k), j(v)) for k, v in x.items())\n"
+            "    if isinstance(x, (list, tuple)): return [j(v) for v in x]\n"
+            "    if isinstance(x, (bytes, bytearray)): return bytes(x).hex()\n"
+            "    return x\n"
+            "with contextlib.redirect_stdout(io.StringIO()), contextlib.redirect_stderr(io.StringIO()):\n"
+            "    m = cli.execute(sys.argv[1:]).meta\n"
+            "m = {k: v for k, v in m.items() if k != 'creation date'}\n"
+            "sys.stdout.write(json.dumps(j(m)))\n")
+    os.remove(workdir + "/out/two.torrent")
+    fr = _fresh(code, workdir, *argv2)
+    return [] if got == fr else ["C09.cli-create-after-config-create"]
+
+
+def _jsonable(x):
+    if isinstance(x, dict):
+        return sorted((repr(k), _jsonable(v)) for k, v in x.items())
+    if isinstance(x, (list, tuple)):
+        return [_jsonable(v) for v in x]
+    if isinstance(x, (bytes, bytearray)):
+        return bytes(x).hex()
+    return x
+
 
 def replay(params, model, notes, workdir, seed):
     """Same history on real files in one interpreter (this one), compared with a
@@ -331,6 +492,10 @@ def replay(params, model, notes, workdir, seed):
     import shutil
     import subprocess
     import sys
+    if "mv" in params:
+        return _replay_cli_config(params, model, workdir, seed)
+    if set(params) == {"version"} and notes.get("shape") == "flat2" and "t0" not in model:
+        return _replay_rebuild_rewrite(params, model, workdir, seed)
     if "which2" not in params and "which" not in params and "mut" not in params and "version" not in params:
         return []       # edit/magnet/rebuild histories are not replayed concretely (a model counterexample there is inconclusive)
     P1 = params.get("P1", 16384)
